@@ -191,6 +191,9 @@ type runner struct {
 	t     *testing.T
 	st    *Stats
 	sched *choice.Source
+	// refKnobs: knobs that only thin out scheduling points (never library
+	// constants) also apply to the reference run
+	refKnobs map[string]int
 }
 
 // sim runs f under the simulator with the variant's worker count/knobs; ref
@@ -204,7 +207,7 @@ func (r *runner) sim(v variant, f func()) *Finding {
 
 func (r *runner) ref(f func()) *Finding {
 	runtime.GOMAXPROCS(1)
-	res := simsched.Run(r.t, simsched.Config{Src: choice.Replay(nil)}, f)
+	res := simsched.Run(r.t, simsched.Config{Src: choice.Replay(nil), Knobs: r.refKnobs}, f)
 	r.st.Steps += res.Steps
 	return outcome(res, "reference run")
 }
@@ -234,6 +237,28 @@ func cls(s string) string {
 	return string(b)
 }
 
+// bigLattice (chance 1/16, drawn after every other workload choice so that
+// recorded tapes keep their meaning) shrinks the spacing until the longest axis
+// has lo..hi cells and drops the block-size knobs and the Contains yields: the
+// library's own size thresholds (block sub-division above 64*4096 cells, buffer
+// shifts above 10^6 corners, per-worker batches) are then reached by size, with
+// default constants.  The essentials item yield is thinned to every 257th item.
+func bigLattice(work *choice.Source, shape *simsolid.Shape, v *variant, lo, hi int) bool {
+	if !work.Chance(1, 16) {
+		return false
+	}
+	n := lo + work.Intn(hi-lo+1)
+	a, b := shape.Bounds()
+	ext := 0.0
+	for i := 0; i < shape.Dim; i++ {
+		ext = math.Max(ext, b[i]-a[i])
+	}
+	shape.Delta = ext / float64(n)
+	v.Knobs = map[string]int{"cm.itemStride": 257}
+	v.YieldEvery = 0
+	return true
+}
+
 // ---------------------------------------------------------------- algorithms
 
 func runMC(r *runner, work *choice.Source, search bool) (fs []Finding) {
@@ -247,6 +272,11 @@ func runMC(r *runner, work *choice.Source, search bool) (fs []Finding) {
 	extra := uint64(pick(work, 0, 2, 5))
 	bigK := 2 + work.Intn(5)
 	salt := work.U64()
+	big := bigLattice(work, shape, &v, 64, 112)
+	if big {
+		r.refKnobs = map[string]int{"cm.itemStride": 257}
+		r.st.probe("mc.big_lattice")
+	}
 	r.st.Workers = v.Workers
 	refSolid := &simsolid.Solid3{S: shape, Salt: salt}
 	var refMesh *model3d.Mesh
@@ -271,7 +301,7 @@ func runMC(r *runner, work *choice.Source, search bool) (fs []Finding) {
 	if search {
 		r.st.MapDep = "mcSearch walks Mesh.VertexSlice(), whose order is the iteration order of the vertex index (a Go map)"
 	}
-	r.st.Desc = fmt.Sprintf("mc search=%v iters=%d delta=%.4f prims=%d aligned=%v variant=%s %s", search, iters, shape.Delta, len(shape.Prims), shape.Aligned, name, v)
+	r.st.Desc = fmt.Sprintf("mc search=%v iters=%d delta=%.4f big=%v prims=%d aligned=%v variant=%s %s", search, iters, shape.Delta, big, len(shape.Prims), shape.Aligned, name, v)
 	if name == "c2f" {
 		// a coarse spacing is admissible only if the coarse mesh "sees every
 		// feature": every vertex of the fine surface must lie within the
@@ -359,6 +389,17 @@ func runDC(r *runner, work *choice.Source, repair bool) (fs []Finding) {
 		buf = 0
 	}
 	maxGos := work.Intn(10)
+	if oldNz := nz; bigLattice(work, shape, &v, 48, 80) {
+		nx = int(math.Round((hi[0]-lo[0]+2*shape.Delta)/shape.Delta)) + 1
+		ny = int(math.Round((hi[1]-lo[1]+2*shape.Delta)/shape.Delta)) + 1
+		nz = int(math.Round((hi[2]-lo[2]+2*shape.Delta)/shape.Delta)) + 1
+		rows = 4 + (rows-4)*nz/oldNz
+		if buf > 1 {
+			buf = rows * nx * ny
+		}
+		r.refKnobs = map[string]int{"cm.itemStride": 257}
+		r.st.probe("dc.big_lattice")
+	}
 	r.st.Workers = v.Workers
 	mk := func(s model3d.Solid, bufSize, gos int) *model3d.DualContouring {
 		return &model3d.DualContouring{S: model3d.SolidSurfaceEstimator{Solid: s}, Delta: shape.Delta, Repair: repair, Clip: clip,
@@ -548,11 +589,31 @@ func runRaster(r *runner, work *choice.Source) (fs []Finding) {
 		pad := func() float64 { return (work.Float() - 0.6) * 0.5 }
 		ras.Bounds = model2d.NewRect(model2d.XY(lo[0]-pad(), lo[1]-pad()), model2d.XY(hi[0]+pad(), hi[1]+pad()))
 	}
+	// only for the solid paths: an even-odd collider test at points exactly in line
+	// with mesh vertices is outside "general position" (C07), not a filter effect
+	dyadic := kind < 2 && work.Chance(1, 3)
+	if dyadic {
+		// (drawn after everything else so that recorded tapes keep their meaning)
+		// closed boxes on a dyadic grid, power-of-two scale, dyadic canvas that pads
+		// or crops: pixel edges, tile edges and faces of the solid coincide exactly
+		shape = simsolid.GenDyadic2(work)
+		ras.Scale = float64(pick(work, 4, 8, 16, 2))
+		ras.Bounds = nil
+		if work.Chance(2, 3) {
+			lo, hi := shape.Bounds()
+			q := func(span int) float64 { return float64(work.Intn(span)-span/3) / 8 }
+			b0, b1 := model2d.XY(lo[0]-q(9), lo[1]-q(9)), model2d.XY(hi[0]+q(9), hi[1]+q(9))
+			if b1.X-b0.X >= 0.25 && b1.Y-b0.Y >= 0.25 {
+				ras.Bounds = model2d.NewRect(b0, b1)
+			}
+		}
+		r.st.probe("raster.dyadic_closed")
+	}
 	r.st.Workers = v.Workers
 	refSolid := &simsolid.Solid2{S: shape, Salt: salt}
 	solid := &simsolid.Solid2{S: shape, Salt: salt, YieldEvery: v.YieldEvery * 8}
 	name := []string{"filter-exact", "filter-exact+extra", "collider-solid", "collider-lines"}[kind]
-	r.st.Desc = fmt.Sprintf("raster scale=%.2f subsamples=%d bounds=%v variant=%s %s", ras.Scale, ras.Subsamples, ras.Bounds != nil, name, v)
+	r.st.Desc = fmt.Sprintf("raster scale=%.2f subsamples=%d bounds=%v dyadic=%v variant=%s %s", ras.Scale, ras.Subsamples, ras.Bounds != nil, dyadic, name, v)
 	var want, got *image.Gray
 	var coll model2d.Collider
 	if kind >= 2 {
